@@ -801,9 +801,11 @@ func main() {
 	for i := nSnap; i < f.N; i++ {
 		genRaw(o, r.Split())
 	}
+	rs := r.Split()
+	shortSoak(o, rs.Split())
 	if f.Tier == "thorough" {
 		for i := 0; i < 3; i++ {
-			genSoak(o, r.Split())
+			genSoak(o, rs.Split())
 		}
 	}
 	_ = strings.Join
